@@ -3,9 +3,11 @@ package main
 // C17 — each file is generated exactly once and plugin output stays in its directory (structural part).
 
 import (
+	"fmt"
 	"go/ast"
 	"go/token"
 	"go/types"
+	"sort"
 	"strings"
 
 	"golang.org/x/tools/go/packages"
@@ -76,8 +78,8 @@ func runC17(c *Ctx) {
 			// Model: paths to `return true` avoiding all stores must pass a `used != nil` test's false edge.
 			okAll, nTrue := true, 0
 			for _, r := range g.Returns() {
-				tv, has := info.Types[r.Results[0]]
-				if !has || tv.Value == nil || tv.Value.ExactString() != "true" {
+				// every return that is not the constant false may say "generate" (`return includeWellKnownTypes` does)
+				if tv, has := info.Types[r.Results[0]]; has && tv.Value != nil && tv.Value.ExactString() == "false" {
 					continue
 				}
 				nTrue++
@@ -103,7 +105,7 @@ func runC17(c *Ctx) {
 					}
 				}
 			}
-			c.Ob("GENERATE-ONCE", "isFileToGenerate/set-before-true", fr.Decl.Pos(), okAll && nTrue >= 2, true, "every `return true` (%d) is preceded by the store into the already-used set or by its nil test: %v", nTrue, okAll)
+			c.Ob("GENERATE-ONCE", "isFileToGenerate/set-before-true", fr.Decl.Pos(), okAll && nTrue >= 2, true, "every return that may be true (%d) is preceded by the store into the already-used set or by its nil test: %v", nTrue, okAll)
 			// imports found in either set return false; lookups precede the final store
 			lookups := 0
 			okFalse := true
@@ -341,6 +343,7 @@ func runC17(c *Ctx) {
 		c.Ob("NAME-CONFINED", "applyInsertionPoint/same-file", ai.Decl.Pos(), okRW && same, true, "the insertion target is read from the caller's read bucket and written back to the caller's write bucket under the same plugin-given name: %v/%v", okRW, same)
 	}
 	// (5) duplicates
+	c17InsertionPredicate(c)
 	if vp := p.Func("private/bufpkg/bufprotoplugin", "ValidatePluginResponses"); vp != nil {
 		vinfo := vp.Info()
 		okErr, okKey := false, false
@@ -429,7 +432,76 @@ func runC17(c *Ctx) {
 			})
 		}
 		c.Ob("INDEXED-RESULTS", "bufgen.execPlugins/responses-by-index", token.NoPos, okIdx, true, "each job stores its response at the plugin's original configuration index (R-GOAGG index-addressed store): %v", okIdx)
+		// (6b) per-group state (added after seeded change C17-b): the loop over plugin groups ranges over a map; apart from
+		// appending jobs and index-addressed stores it must not write state that outlives one iteration (a filtered image
+		// assigned to a variable of the enclosing function leaks one plugin's type filter into the groups visited later,
+		// in random order, and into every closure that captured the variable)
+		found := false
+		for _, l := range findMapLoops(p, pkG) {
+			if l.Fn == nil || !strings.HasSuffix(l.Key, "#1") || !strings.Contains(l.Key, "execPlugins/") {
+				continue
+			}
+			found = true
+			classifyLoop(p, l, func(fn *types.Func) bool { return c02Absorbing(fn) })
+			v, bad := l.verdict()
+			c.Ob("INDEXED-RESULTS", "bufgen.execPlugins/per-group-state", l.Range.Pos(), v != "order-sensitive", true,
+				"the loop over plugin groups (a map) has verdict %q; effects that outlive an iteration: %s", v, effectSummary(bad))
+		}
+		if !found {
+			c.Fail("INDEXED-RESULTS", "bufgen.execPlugins/per-group-state", token.NoPos, "the map loop over plugin groups in execPlugins was not found")
+		}
 	}
+}
+
+// c17InsertionPredicate (added after seeded change C17-c): the duplicate-output validator skips insertion-point files
+// and the response writer routes them to applyInsertionPoint; both must use the same predicate, or a file that the
+// writer treats as a regular file is invisible to the validator (an explicit empty insertion_point is such a file
+// under a presence test).
+func c17InsertionPredicate(c *Ctx) {
+	p := c.P
+	pk := p.Pkg("private/bufpkg/bufprotoplugin")
+	if pk == nil {
+		c.Fail("DUPLICATE-OUTPUT", "insertion-predicate", token.NoPos, "bufprotoplugin not found")
+		return
+	}
+	info := pk.TypesInfo
+	preds := map[string][]string{}
+	for _, fr := range p.FuncsOf(pk) {
+		if fr.Decl.Body == nil {
+			continue
+		}
+		ast.Inspect(fr.Decl.Body, func(n ast.Node) bool {
+			ifs, ok := n.(*ast.IfStmt)
+			if !ok {
+				return true
+			}
+			mentions := false
+			var recv string
+			ast.Inspect(ifs.Cond, func(m ast.Node) bool {
+				if sel, ok := m.(*ast.SelectorExpr); ok && (sel.Sel.Name == "GetInsertionPoint" || sel.Sel.Name == "InsertionPoint" || sel.Sel.Name == "HasInsertionPoint") {
+					if namedName(info.TypeOf(sel.X)) == "CodeGeneratorResponse_File" {
+						mentions = true
+						recv = exprString(sel.X)
+					}
+				}
+				return true
+			})
+			if mentions {
+				norm := strings.ReplaceAll(exprString(ifs.Cond), recv, "FILE")
+				preds[norm] = append(preds[norm], fr.Decl.Name.Name)
+			}
+			return true
+		})
+	}
+	n := 0
+	var desc []string
+	for k, fs := range preds {
+		n += len(fs)
+		desc = append(desc, fmt.Sprintf("`%s` in %v", k, fs))
+	}
+	sort.Strings(desc)
+	c.Ob("DUPLICATE-OUTPUT", "insertion-predicate-agrees", token.NoPos, len(preds) == 1 && n >= 2, true,
+		"validator and writer decide 'is an insertion-point file' with one predicate (%d sites): %s", n, strings.Join(desc, "; "))
 }
 
 // c17SameGetName: both values are results of GetName() on the same receiver.
